@@ -126,7 +126,18 @@ class ExprMixin:
         is_and = isinstance(e.op, ast.And)
         pure = all(self.is_pure(x) for x in e.values[1:])
         vals0 = None
-        if pure or p.spec:
+        if p.spec:
+            ts = []
+            for x in e.values:
+                t = self.truth(self.ev(x, p, module), p)
+                ts.append(t)
+                st = z3.simplify(t)
+                if is_and and z3.is_false(st):
+                    return VBool(False)
+                if (not is_and) and z3.is_true(st):
+                    return VBool(True)
+            return VBool(z3.And(*ts) if is_and else z3.Or(*ts))
+        if pure:
             vals = [self.ev(x, p, module) for x in e.values]
             if all(isinstance(v, (VBool,)) for v in vals) or p.spec:
                 ts = [self.truth(v, p) for v in vals]
@@ -162,6 +173,11 @@ class ExprMixin:
 
     def ev_IfExp(self, e, p, module):
         c = self.truth(self.ev(e.test, p, module), p)
+        cs = z3.simplify(c)
+        if z3.is_true(cs):
+            return self.ev(e.body, p, module)
+        if z3.is_false(cs):
+            return self.ev(e.orelse, p, module)
         if p.spec or (self.is_pure(e.body) and self.is_pure(e.orelse)):
             a = self.ev(e.body, p, module)
             b = self.ev(e.orelse, p, module)
@@ -638,6 +654,8 @@ class ExprMixin:
             raise Unsupported(f"exception attribute {attr}")
         if isinstance(base, (VBytes, VStr, VList, VSet)):
             return VFunc("method", attr, base)
+        if isinstance(base, VFunc) and base.kind == "builtin":
+            return VFunc("builtin", f"{base.target}.{attr}")
         if isinstance(base, VFunc) and base.kind == "super":
             ci, recv = base.target, base.recv
             m = self.prog.find_method(recv.cls if isinstance(recv, VObj) else recv.cls, attr, after=ci)
@@ -665,12 +683,17 @@ class ExprMixin:
         cands = []
         if ci is not None:
             cands = self.prog.mro(ci) + [c for c in self.prog.subclasses(ci) if c is not ci]
+        found = []
         for c in cands:
             for fname, fann, fdef in c.fields:
                 if fname == attr:
-                    # class-level constant fields (tag_number, filter_id, auth_id: init=False with default) are
-                    # functions of the dynamic class
-                    return self.sym_field(base.t, attr, self.ann_text(fann), c.module)
+                    found.append((self.ann_text(fann), c.module))
+        if found:
+            # the same field name may be declared with different optionality in sibling classes (BindRequest.name: str,
+            # ExtendedResponse.name: Optional[str]): use the most general declaration
+            opt = [f for f in found if f[0].startswith("t.Optional[")]
+            ann, mod = (opt or found)[0]
+            return self.sym_field(base.t, attr, ann, mod)
         if ci is not None:
             m = self.prog.find_method(ci, attr)
             if m is not None:
